@@ -507,6 +507,28 @@ Fixpoint width_loop (vals : list (option (list N))) (max_width : Z) : Z :=
 
 Definition data_width (vals : list (option (list N))) : Z := width_loop vals 4%Z.
 
+(* ---- the SECOND width path: orso.display.markdown (display.py:427-444), plain Python ----
+     t = table.slice(length=limit) if limit > 0 else table
+     data_width = [max(list(map(len, map(str, [p for p in h if p is not None]))) + [4]) for h in columns of t]
+     col_width  = [min(max(len(name), dw), max_column_width) ...]
+   written as the source writes it (a maximum over the list of lengths with 4 appended), NOT through
+   width_loop: that the two agree is a theorem (C10_markdown_width_agrees). *)
+Fixpoint nonnull_lengths (vals : list (option (list N))) : list Z :=
+  match vals with
+  | [] => []
+  | None :: r => nonnull_lengths r
+  | Some s :: r => Z.of_nat (length s) :: nonnull_lengths r
+  end.
+
+Definition md_data_width (vals : list (option (list N))) : Z :=
+  fold_right Z.max 4%Z (nonnull_lengths vals).        (* max(lengths + [4]) *)
+
+Definition md_head (limit : Z) (vals : list (option (list N))) : list (option (list N)) :=
+  if (0 <? limit)%Z then firstn (Z.to_nat limit) vals else vals.
+
+Definition md_col_width (name_len : Z) (vals : list (option (list N))) (limit max_column_width : Z) : Z :=
+  Z.min (Z.max name_len (md_data_width (md_head limit vals))) max_column_width.
+
 (* ---- comparison used by the correspondence files (cells identified by integers) ---- *)
 Inductive obs :=
 | ORes (r : list (list Z))     (* returned; the array as a list of columns *)
@@ -642,3 +664,22 @@ Definition c10_pydef_check (c : list (prow Z Z) * list (pcol Z) * obs * option (
   end.
 Definition c10_pydef_show (c : list (prow Z Z) * list (pcol Z) * obs * option (list Z * obs)) :=
   let '(rows, cols, o, native) := c in extract_columns_py Z.eqb rows cols.
+
+(* ---- DataFrame.markdown column widths beside the compiled helper (stream "md") ----
+   per column: (len(name), rendered cells of ALL rows); observed: the widths markdown used (read off its
+   separator line) and what calculate_data_width returned for the same head columns *)
+Fixpoint lzz_eqb (a b : list Z) : bool :=
+  match a, b with
+  | [], [] => true
+  | x :: r, y :: t => Z.eqb x y && lzz_eqb r t
+  | _, _ => false
+  end.
+
+Definition c10_md_check (c : list (Z * list (option (list N))) * Z * Z * list Z * list Z) : bool :=
+  let '(cols, limit, maxw, got, native) := c in
+  lzz_eqb (map (fun nc => md_col_width (fst nc) (snd nc) limit maxw) cols) got &&
+  lzz_eqb (map (fun nc => data_width (md_head limit (snd nc))) cols) native.
+Definition c10_md_show (c : list (Z * list (option (list N))) * Z * Z * list Z * list Z) :=
+  let '(cols, limit, maxw, got, native) := c in
+  (map (fun nc => md_col_width (fst nc) (snd nc) limit maxw) cols,
+   map (fun nc => data_width (md_head limit (snd nc))) cols).
